@@ -36,6 +36,7 @@ CV_WRITERS = {
 
 
 def run(repo: Repo, rep, tier: str):
+    rep.count("files_in_scope", repo.consult_all())
     collisions(repo, rep, "C09")
     store_paths(repo, rep, "C09")
     validation_rules(repo, rep, "C09")
